@@ -366,4 +366,45 @@ theorem unpackFloat_packFloat_f64' (p : Nat) (hp : p < 2 ^ 64) (hn : decode f64 
   | inf neg => simp only; rw [← hv, encode_decode' f64 f64_ok p (by rw [hw]; exact hp) hn]
   | fin neg n => simp only; rw [← hv, encode_decode' f64 f64_ok p (by rw [hw]; exact hp) hn]
 
+
+/-- bfloat16 is the top half of binary32: padding a 16-bit pattern with 16 zero bits gives a binary32 pattern
+    that denotes the same value. -/
+theorem decode_bf16_top' (p : Nat) (hp : p < 2 ^ 16) : decode f32 (p * 2 ^ 16) = decode bf16 p := by
+  obtain ⟨hsplit, hs, hex, hman⟩ := fields 8 7 p (by simpa using hp)
+  obtain ⟨s, hs'⟩ : ∃ s, s = p / 2 ^ (8 + 7) := ⟨_, rfl⟩
+  obtain ⟨ex, hex'⟩ : ∃ ex, ex = p / 2 ^ 7 % 2 ^ 8 := ⟨_, rfl⟩
+  obtain ⟨man, hman'⟩ : ∃ man, man = p % 2 ^ 7 := ⟨_, rfl⟩
+  simp only [← hs', ← hex', ← hman'] at hsplit hs hex hman
+  have h32 : p * 2 ^ 16 = s * 2 ^ (8 + 23) + ex * 2 ^ 23 + man * 2 ^ 16 := by
+    rw [hsplit]; ring
+  obtain ⟨a1, a2, a3⟩ := fields_of 8 23 s ex (man * 2 ^ 16) hex (by
+    calc man * 2 ^ 16 < 2 ^ 7 * 2 ^ 16 := Nat.mul_lt_mul_of_pos_right hman (by norm_num)
+      _ = 2 ^ 23 := by norm_num)
+  have e32 : f32.E = 8 ∧ f32.M = 23 := by decide
+  have ebf : bf16.E = 8 ∧ bf16.M = 7 ∧ bf16.q0 = 16 + f32.q0 := by decide
+  obtain ⟨Q, hQ⟩ : ∃ Q, Q = f32.q0 := ⟨_, rfl⟩
+  unfold decode
+  simp only [e32.1, e32.2, ebf.1, ebf.2.1, ebf.2.2, ← hQ]
+  rw [h32, a1, a2, a3, ← hs', ← hex', ← hman']
+  have hz : man * 2 ^ 16 = 0 ↔ man = 0 := by
+    constructor
+    · intro h; rcases Nat.mul_eq_zero.mp h with h | h
+      · exact h
+      · simp at h
+    · rintro rfl; simp
+  by_cases hinf : ex = 2 ^ 8 - 1
+  · simp only [hinf, if_true]
+    by_cases hm : man = 0
+    · rw [if_pos (hz.mpr hm), if_pos hm]
+    · rw [if_neg (fun h => hm (hz.mp h)), if_neg hm]
+  · rw [if_neg hinf, if_neg hinf]
+    by_cases h0 : ex = 0
+    · rw [if_pos h0, if_pos h0]
+      rw [Nat.mul_assoc, ← Nat.pow_add]
+    · rw [if_neg h0, if_neg h0]
+      have : (2 ^ 23 + man * 2 ^ 16) = (2 ^ 7 + man) * 2 ^ 16 := by ring
+      rw [this, Nat.mul_assoc, ← Nat.pow_add]
+      have he : 16 + (Q + ex - 1) = 16 + Q + ex - 1 := by omega
+      rw [he]
+
 end BM.C02.Ieee
